@@ -24,7 +24,7 @@ META = {
                   "tight, pad monotone, wrong dimension raises), cross/det expansions and Lagrange, rotate_2d and Rodrigues rotation "
                   "isometric / fixing the axis, 3-point angle symmetric and in [0,pi] (given atan2's contract), 2D angle "
                   "antisymmetric, cotan * |BAxBC| = BA.BC, circumcentre equidistant and coplanar (whenever the function returns), "
-                  "principal_angle / angle_diff congruent mod 2pi and in range, roots^n = c/|c|, det_2x2 independent of the representation "
+                  "principal_angle / angle_diff congruent mod 2pi and in range, roots^n = c/|c| for the whole returned list, det_2x2 independent of the representation "
                   "(complex / array) of each column, solve_quadratic returns roots, unit_cube; the frame theorem: every function of "
                   "the five files (event table regenerated from the source) leaves argument arrays, other boxes and numpy's error "
                   "register as found on return and on raise, boxes own fresh arrays. PARTIAL (guard named in the theorem): rotation "
@@ -32,7 +32,13 @@ META = {
                   "reference normal is not in the plane of the two vectors (C12_signed_angle_guard_is_needed shows the guard is "
                   "necessary). The model is tied to the running code by kernel-evaluated correspondence batches on call sequences "
                   "(exact through Q, binary64 with tolerance for sqrt).",
-    "level_note": "Trusted: Coq kernel + vm_compute (PrimFloat evaluated, never reasoned about); the translator (its output is "
+    "level_note": "PROVED: the theorems of Props.v about the regenerated definitions and the regenerated event table. TESTED only: that "
+                  "those definitions compute what the running code computes (correspondence batches) and the functions listed in the "
+                  "evidence notes as correspondence/oracle-only. The side-effect event table is produced by a FAIL-CLOSED analysis: every "
+                  "call must be a function of the five files, an np.seterr* call, a recognised in-place method (rooted at its receiver / "
+                  "first argument), or in an explicit whitelist of pure callables and pure methods (PURE_CALLS / PURE_METHODS in "
+                  "vf/translate/c12.py) - that whitelist is trusted; unknown names, out= keywords and any other call are a "
+                  "TranslationError. Trusted: Coq kernel + vm_compute (PrimFloat evaluated, never reasoned about); the translator (its output is "
                   "also run against the implementation); the harness (generators, driver canonicalisation, np.shares_memory / "
                   "np.geterr observations); atan2/cos/sin/cmath.polar are a numerical shell: angles enter the theorems as the "
                   "(x,y) pair handed to atan2 and as hypotheses on what atan2/polar return; floating-point round-off is outside "
@@ -542,6 +548,19 @@ def obs_term(op, ob, skip=False):
         nchg = 0            # encoded as a no-op (see op_term)
     return "(mkobs %s %s %s %s %s)" % (robs_term(op, ob, skip), coq_bool(ob["err_same"]), zlit(nchg), bc,
                                        zlit(len(ob["alias"])))
+
+
+def case_terms_skips(prog, obs):
+    """the calls of a program whose answer is exempt from the model comparison (RSkip / encoded as a no-op)"""
+    A = {}
+    out = []
+    for o, w in zip(prog["ops"], obs):
+        if o[0] == "arr":
+            A[o[1]] = frs(o[2])
+            continue
+        if robs_term(o, w, ill_conditioned(o, A)) == "RSkip":
+            out.append(o)
+    return out
 
 
 def case_term(prog, obs):
@@ -1294,13 +1313,24 @@ def run(ctx):
     ctx.extra["calls"] = ncalls
     ctx.log("%d programs (%d from the corpus), %d calls on the implementation" % (len(progs), ncorpus, ncalls))
 
-    # 1. oracle on every program = the search for a failing input
+    # 1. oracle on every program = the search for a failing input; EVERY failing call is classified
     fails = []
     for idx, (p, o) in enumerate(zip(progs, obs)):
         for (i, key, msg) in oracle_prog(p, o):
             fails.append((idx, i, key, msg))
+    unknown = [f for f in fails if not ctx.known(f[2])]
+    known = [f for f in fails if ctx.known(f[2])]
     ctx.obligation("oracle: every observed call satisfies the property's algebra and leaves arrays / boxes / error register alone",
-                   "oracle-on-implementation", True, "%d failing calls" % len(fails))
+                   "oracle-on-implementation", not unknown,
+                   "%d failing calls in classes %s (+ %d of listed known findings)"
+                   % (len(unknown), sorted({f[2] for f in unknown})[:12], len(known)))
+
+    # cases the harness could not compare (ill-conditioned float inputs, unencodable values) are counted
+    nskip = sum(1 for p, o in zip(progs, obs) for t in case_terms_skips(p, o))
+    ctx.extra["comparisons_skipped"] = nskip
+    ctx.count("comparison skipped (ill-conditioned / not encodable)", nskip)
+    ctx.obligation("at most 5%% of the calls are exempt from the model comparison (%d of %d)" % (nskip, ncalls),
+                   "harness", ncalls > 0 and nskip <= 0.05 * ncalls, "")
 
     # 2. kernel-checked correspondence
     bad = []
@@ -1310,33 +1340,28 @@ def run(ctx):
     else:
         ctx.obligation("correspondence batches", "correspondence", False, "model does not compile")
 
-    # 3. verdicts
+    # 3. verdicts: unknown classes first (shrunk, with replay), then the listed known findings
     reported = set()
-    failing_progs = set()
-    for idx, i, key, msg in fails:
-        failing_progs.add(idx)
-        if key in reported or len(reported) >= 5:
+    failing_progs = {f[0] for f in fails}
+    for idx, i, key, msg in unknown:
+        if key in reported:
             continue
         reported.add(key)
-        if ctx.known(key):
-            ctx.report_known(key, ctx.known(key)["what"])
+        if len(reported) > 5:
+            ctx.violation("%s: %s" % (key, msg), {"ops": progs[idx]["ops"][:i + 1], "class": key, "note": "not shrunk"}, key=key)
             continue
         small = shrink({"ops": progs[idx]["ops"][:i + 1]}, key)
         ob = run_one(small)
         msgs = [m for _, k2, m in oracle_prog(small, ob) if k2 == key]
         ctx.violation("%s: %s" % (key, msgs[0] if msgs else msg), {"ops": small["ops"], "observed": ob, "class": key}, key=key)
+    for idx, i, key, msg in known:
+        ctx.report_known(key, ctx.known(key)["what"])
     if bad:
         unexplained = [i for i in bad if i not in failing_progs]
         for i in unexplained[:3]:
             ctx.log("model/implementation disagree on program", i, json.dumps(progs[i]["ops"]), json.dumps([w["r"] for w in obs[i]]))
         if unexplained:
             ctx.notes.append("model and implementation disagree on programs %s although the oracle accepts the implementation's answers" % unexplained[:8])
-        elif not ctx.violations:
-            # every disagreement is an instance of a listed known finding
-            for o in ctx.obligations:
-                if o["kind"] == "correspondence" and not o["ok"]:
-                    o["ok"] = True
-                    o["detail"] += " (all disagreements are instances of listed known findings)"
 
 
 def replay(ctx, data):
